@@ -244,6 +244,10 @@ def load_known(prop):
 def write_evidence(prop, ev):
     os.makedirs(os.path.join(ROOT, 'evidence'), exist_ok=True)
     p = os.path.join(ROOT, 'evidence', prop + '.json')
+    if os.environ.get('VERIF_NO_EVIDENCE'):
+        # bin/seedtest runs the checks on deliberately broken trees: keep the committed evidence
+        os.makedirs(os.path.join(BUILD, 'evidence-seedtest'), exist_ok=True)
+        p = os.path.join(BUILD, 'evidence-seedtest', prop + '.json')
     tmp = p + '.tmp'
     json.dump(ev, open(tmp, 'w'), indent=1)
     os.replace(tmp, p)
